@@ -74,6 +74,7 @@ class Executor:
         self.fresh = 0
         self.overrides = {}      # callee-name regex -> python function (per-lemma stubs)
         self.path_budget = None
+        self.deadline = None
         from e2 import summaries
         self.summ = summaries.Summaries(self)
         self._index_functions()
@@ -101,6 +102,8 @@ class Executor:
     def resolve(self, callee, argvals):
         """callee text from a call terminator / fn item -> Function or None (external)."""
         c = callee.strip()
+        if c in self.funcs:
+            return self.funcs[c]
         c = strip_generics(c) if "::<" in c and not c.startswith("<") else c
         if c in self.funcs:
             return self.funcs[c]
@@ -189,7 +192,7 @@ class Executor:
     def check(self, st, *extra):
         self.queries += 1
         t0 = time.time()
-        r = self.solver.check(*(st.pc + self.tc.assumptions + list(extra)))
+        r = self.solver.check(*((st.pc if st is not None else []) + self.tc.assumptions + list(extra)))
         self.solver_time += time.time() - t0
         if r == z3.unknown:
             raise Unsupported("solver returned unknown: %s" % self.solver.reason_unknown())
@@ -275,7 +278,10 @@ class Executor:
             if not isinstance(v, Enum):
                 raise Unsupported("downcast of non-enum %r" % (v,))
             if v.variant is None:
-                raise Unsupported("downcast of an enum whose discriminant was never inspected (%s as %s)" % (v.origin, variant))
+                if len(self.enum_variants(v.ty)) == 1:
+                    v.variant = variant          # single-variant enum: nothing to inspect
+                else:
+                    raise Unsupported("downcast of an enum whose discriminant was never inspected (%s as %s)" % (v.origin, variant))
             if v.variant != variant:
                 raise Unsupported("downcast to %s but value is %s" % (variant, v.variant))
             if v.payload is None:
@@ -528,6 +534,9 @@ class Executor:
         if k in ("copy", "move"):
             v = self.read_place(st, fr, op[1])
             if isinstance(v, Uninit):
+                lty = fr.fn.locals.get(op[1][1], "") if op[1][0] == "local" else ""
+                if strip_ty(lty).startswith("{closure@"):
+                    return FnVal(strip_ty(lty))          # zero-sized capture-less closure
                 raise Unsupported("use of uninitialised %r in %s" % (op[1], fr.fn.name))
             return clone_val(v)
         if k == "const":
@@ -686,6 +695,8 @@ class Executor:
             return Float(z3.fpFPToFP(z3.RNE(), v.t, srt), info)
         if kind.startswith("PointerCoercion") or kind.startswith("PtrToPtr") or kind.startswith("Transmute") and isinstance(v, (Ref, FnVal)):
             return v
+        if kind.startswith("PointerExposeProvenance") and isinstance(v, FnVal):
+            return Int(z3.BitVec("fnaddr!" + v.name[:100], 64), 64, False)
         raise Unsupported("cast %s to %s of %r" % (kind, ty, v))
 
     def eval_rvalue(self, st, fr, rv, dest_ty=None):
@@ -710,7 +721,9 @@ class Executor:
         if k == "ref":
             r = self.place_ref(st, fr, rv[2])
             # make sure the referent exists (materialise lazily)
-            self.get_at(st, r.box, r.path)
+            cur = self.get_at(st, r.box, r.path)
+            if isinstance(cur, Uninit) and rv[2][0] == "local" and strip_ty(fr.fn.locals.get(rv[2][1], "")).startswith("{closure@"):
+                self.set_at(st, r.box, r.path, FnVal(strip_ty(fr.fn.locals[rv[2][1]])))
             return Ref(r.box, r.path, rv[1] == "mut")
         if k == "addr":
             r = self.place_ref(st, fr, rv[1])
@@ -855,6 +868,8 @@ class Executor:
             st = work.pop()
             if self.path_budget is not None and len(outs) + len(work) > self.path_budget:
                 raise Unsupported("path budget %d exceeded" % self.path_budget)
+            if self.deadline is not None and time.time() > self.deadline:
+                raise Unsupported("lemma time budget exceeded")
             try:
                 res = self.run_path(st, work, base_depth)
                 if res is not None:
@@ -869,6 +884,8 @@ class Executor:
             st.steps += 1
             if st.steps > self.step_limit:
                 raise Unsupported("step limit")
+            if (st.steps & 1023) == 0 and self.deadline is not None and time.time() > self.deadline:
+                raise Unsupported("lemma time budget exceeded")
             fr = st.frames[-1]
             blk = fr.fn.blocks[fr.bb]
             try:
@@ -1059,6 +1076,13 @@ class Executor:
             f0 = args[0]
             if isinstance(f0, Ref):
                 f0 = self.get_at(st, f0.box, f0.path)
+            if isinstance(f0, Uninit) and m.group(1).startswith("{closure@"):
+                # capture-less closure: a zero-sized value that MIR never initialises
+                f0 = FnVal(m.group(1))
+                if isinstance(args[0], Ref):
+                    self.set_at(st, args[0].box, args[0].path, f0)
+                else:
+                    args[0] = f0
             tup = args[1].items if isinstance(args[1], Tuple) else []
             callee_name = f0.name
             if callee_name.startswith("{closure@"):
@@ -1075,9 +1099,8 @@ class Executor:
         else:
             target = self.resolve(callee_name, args)
         if target is not None:
-            if ret_bb is None:
-                # diverging crate function
-                pass
+            if len(target.params) == len(args) + 1 and "{closure#" in target.name:
+                args = self.closure_self(target, [FnVal(target.name)] + args)
             dref = self.place_ref(st, fr, dest) if dest is not None else None
             self.push_frame(st, target, args, dref, ret_bb)
             return None
@@ -1093,6 +1116,8 @@ class Executor:
             alts = val.alts
             if not alts:
                 raise DeadPath()
+            # a nested run may have abandoned the object `st` at a fork: only the returned states are live
+            depth = len(alts[0][0].frames)
             for s2, v2 in alts[1:]:
                 f2 = s2.frames[depth - 1]
                 if dest is not None:
@@ -1292,7 +1317,10 @@ def veq(ex, a, b):
         cs = []
         if pa is not None:
             if pa[0] != pb[0]:
-                raise Unsupported("equality of vecs with different symbolic prefixes")
+                # unrelated symbolic sequences: equal or not is unknown -> an uninterpreted fact about the two
+                srt = opaque_sort("lazy_seq")
+                return z3.And(a.len_term() == b.len_term(),
+                              z3.Function("seq_eq", srt, srt, z3.BoolSort())(z3.Const(pa[0] + "#%d" % len(a.items), srt), z3.Const(pb[0] + "#%d" % len(b.items), srt)))
             if pa[2] != pb[2]:
                 # align: make the shallower one explicit down to the same depth (on a copy)
                 lo, hi = (a, b) if pa[2] < pb[2] else (b, a)
@@ -1351,6 +1379,8 @@ def sym_like(ex, v, name):
         return Vec(v.elem_ty, prefix=(name, z3.BitVec(name + ".len", 64), 0), items=[])
     if isinstance(v, Ref):
         return Ref(Box(sym_like(ex, ex.get_at(None, v.box, v.path), name + ".*"), name=name + ".*"))
+    if isinstance(v, FnVal):
+        return FnVal("?sym:" + name)
     raise Unsupported("sym_like %r" % (v,))
 
 
